@@ -47,6 +47,7 @@ def ops_strategy(n):
         st.tuples(st.just('cross'), st.permutations(range(n)).map(lambda p: tuple(p[:3])), st.booleans()) if n >= 3 else
         st.tuples(st.just('connect'), pair, st.booleans(), st.booleans()),
         st.tuples(st.just('classic'), pair),
+        st.tuples(st.just('advset'), pair, st.booleans()),
         st.tuples(st.just('send'), st.integers(0, 5), st.integers(0, 1), st.integers(1, 60)),
         st.tuples(st.just('send'), st.integers(0, 5), st.integers(0, 1), st.integers(1, 60)),
         st.tuples(st.just('send'), st.integers(0, 5), st.integers(0, 1), st.integers(1, 60)),
@@ -241,6 +242,47 @@ def run_case(ctx, case) -> None:
                 if len(new_j) != 1:
                     fail('peer_connection_report/LE/random_initiator', f'{j} reported {len(new_j)} connections from {i}')
                 conns.append({'a': i, 'b': j, 'ca': ca, 'cb': new_j[0], 'alive': True, 'transport': PhysicalTransport.LE})
+            elif kind == 'advset':
+                # j advertises with an extended advertising SET that has its own random address
+                # (different from the device's random address); i connects to that address.
+                (i, j), ci_public = op[1], op[2]
+                if not case['ext'][j] or live_between(i, j, PhysicalTransport.LE):
+                    continue
+                from bumble.device import AdvertisingParameters
+
+                set_address = hci.Address(bytes([0x5A, j, i, step & 0xFF, 0x11, 0xC0 | j]), hci.Address.RANDOM_DEVICE_ADDRESS)
+                before = {k: len(events[k]) for k in range(n)}
+                try:
+                    adv_set = await w[j].device.create_advertising_set(
+                        advertising_parameters=AdvertisingParameters(
+                            own_address_type=hci.OwnAddressType.RANDOM, primary_advertising_interval_min=2000.0,
+                            primary_advertising_interval_max=2000.0),
+                        random_address=set_address,
+                    )
+                    ca = await w[i].device.connect(
+                        set_address,
+                        own_address_type=hci.OwnAddressType.PUBLIC if ci_public else hci.OwnAddressType.RANDOM,
+                        timeout=30.0,
+                    )
+                except Exception as e:  # noqa: BLE001
+                    fail(f'connect_failed/{type(e).__name__}/advertising_set_address',
+                         f'connect({i}->{j}) to an advertising set with its own random address failed: {e!r}')
+                await settle()
+                if not same_addr(ca.peer_address, set_address):
+                    fail('caller_wrong_connection', f'connect({i}->set of {j}) returned a connection to {ca.peer_address}')
+                want_initiator = own_address(i, ci_public)
+                match = [c for c in events[j][before[j]:] if same_addr(c.peer_address, want_initiator)]
+                if len(match) != 1:
+                    fail('peer_connection_report/LE/advertising_set', f'{j} reported {len(match)} connections from {i}')
+                for k in range(n):
+                    if k not in (i, j) and len(events[k]) != before[k]:
+                        fail('bystander_connection', f'device {k} got a connection event for connect({i}->{j})')
+                conns.append({'a': i, 'b': j, 'ca': ca, 'cb': match[0], 'alive': True, 'transport': PhysicalTransport.LE})
+                try:
+                    await adv_set.remove()
+                except Exception:
+                    pass
+                labels.add('advertising_set_own_address')
             elif kind == 'classic':
                 i, j = op[1]
                 if live_between(i, j, PhysicalTransport.BR_EDR):
@@ -405,7 +447,8 @@ def run(ctx) -> None:
     ctx.hyp('histories', lambda c: run_case(ctx, c), case_strategy(), max_examples=ctx.n(1400, 30000))
     for label in ('le_connect', 'classic_connect', 'public_own_address', 'extended_advertising',
                   'overlapping_connect', 'payload', 'disconnect_by_central', 'disconnect_by_peripheral',
-                  'scan_active', 'scan_passive', 'devices:4', 'scanner_also_advertises'):
+                  'scan_active', 'scan_passive', 'devices:4', 'scanner_also_advertises',
+                  'advertising_set_own_address'):
         ctx.floor(label, 8)
 
 
